@@ -3,7 +3,6 @@ From Coq Require Import List NArith Bool String.
 From Dznpy Require Import Base.PyStr Base.Result Model.TextGen Model.Scoping.
 Import ListNotations.
 
-Definition L (x : string) : str := lit x.
 
 (* Fqn.__str__ *)
 Record fqn := { q_ids : ids; q_root : bool }.
